@@ -839,6 +839,9 @@ func withDeadline(zone string, f func() string) string {
 // does with the tokens, the first problem must be reported (Err() != nil) and the record behind it must not
 // be delivered.
 func lexErrorInjection(r *Rng, mult int) {
+	if z.Aborted {
+		return // a run has hung already: it is reported, nothing further is started
+	}
 	pool := &NamePool{R: r}
 	dns.PrivateHandle("VPRIVZ", c07PrivCode, func() dns.PrivateRdata { return new(c07Priv) })
 	defer dns.PrivateHandleRemove(c07PrivCode)
